@@ -41,6 +41,12 @@ var compR = map[string]string{
 }
 
 var registry = map[string]check{
+	"C07": {parts: []part{{"compiled", layerc.C07, 16, 160}}, level: "exploration", rule: "wip", components: compR},
+	"C13": {parts: []part{{"compiled", layerc.C13, 16, 160}}, level: "exploration", rule: "wip", components: compR},
+	"C03": {parts: []part{{"compiled", layerc.C03, 16, 160}}, level: "exploration", rule: "wip", components: compR},
+	"C04": {parts: []part{{"compiled", layerc.C04, 16, 160}}, level: "exploration", rule: "wip", components: compR},
+	"C05": {parts: []part{{"compiled", layerc.C05, 16, 160}}, level: "exploration", rule: "wip", components: compR},
+	"C06": {parts: []part{{"compiled", layerc.C06, 16, 160}}, level: "exploration", rule: "wip", components: compR},
 	"C02": {
 		parts: []part{{"compiled", layerc.C02, 16, 160}},
 		level: "exploration", rule: "wip", components: compR,
@@ -72,21 +78,21 @@ var registry = map[string]check{
 		components:  compR,
 	},
 	"C14": {
-		parts:  []part{{"runtime", layerr.C14, 32, 256}},
+		parts:  []part{{"runtime", layerr.C14, 32, 256}, {"compiled", layerc.C14, 16, 128}},
 		replay: layerr.Replay, level: "exploration",
 		rule:        "cases = k<=6 iterators over <=3 term descriptions (iterators may be started from ONE shared Seq value) owned by m<=4 consumer threads; the seeded scheduler picks the running thread at every op boundary and at every effect point inside a step. Oracle (self-relative): each iterator's projection of the interleaved history equals the history of the same iterator consumed alone by the same ops; secondary: the interleaved history equals the reference's under the same choices. Non-trivial = >= 2 iterators, >= 2 thread switches, >= 2 effects; distinct = digest of (terms, ownership, ops, choices).",
 		assumptions: []string{"one goroutine runnable at a time (baton passing) is a faithful stand-in for interleavings at effect points; data races are the -race supplement's job"},
 		components:  compR,
 	},
 	"C17": {
-		parts:  []part{{"runtime", layerr.C17, 12, 12}},
+		parts:  []part{{"runtime", layerr.C17, 12, 12}, {"compiled", layerc.C17, 3, 6}},
 		replay: layerr.Replay, level: "exploration",
 		rule:        "cases = loop kind (For/While/Loop) x quiet body (Continue/Normal, optionally behind an inner loop) x n in an ascending ladder; stack depth (runtime.Callers) sampled at effect points; oracle: max depth at 10n <= max depth at n + 8 frames, and delivered values equal the reference. Every case is non-trivial (>= 100 iterations); distinct = (loop shape, n).",
 		assumptions: []string{"runtime.Callers depth is a faithful measure of stack use per frame kind"},
 		components:  compR,
 	},
 	"C18": {
-		parts:  []part{{"runtime", layerr.C18, 32, 192}},
+		parts:  []part{{"runtime", layerr.C18, 32, 192}, {"compiled", layerc.C18, 16, 128}},
 		replay: layerr.Replay, level: "fault_enumeration",
 		rule:        "for each sampled (terms, consumer ops, thread interleaving) with J generator-side effects in the fault-free run, J further runs arm a panic with a unique value at effect j (every j, capped at 120 quick / 400 thorough per run). Oracle (self-relative): identical history up to effect j, the consumer call that was executing ends in a panic carrying exactly the armed value, no later event of that iterator, all other iterators' projections unchanged; secondary: the reference coroutine's history under the same fault is identical. Non-trivial = the run yields at least once; distinct = digest of (scenario, j).",
 		assumptions: []string{"effects (vrt.E) mark every statement position a panic can originate from in the workload"},
